@@ -15,10 +15,19 @@ from ..common import Violation, cbool, clist, cnat
 from . import _life
 
 PROP_FILES = ['Props/C12.v']
-TRANSLATORS = ['callback_skeleton']     # Gen/CallbackSkeleton.v is regenerated from callback.py + session.py on every run
+TRANSLATORS = ['callback_skeleton', 'fsm_config', 'machine_wiring']     # Gen/CallbackSkeleton.v is regenerated from callback.py + session.py on every run
 TRUSTED_BASE = _life.TRUSTED_BASE + [
     'translate/callback_skeleton.py (ast pattern matcher, fail-closed) and the try/finally + asynccontextmanager semantics of '
     'Life/FailStart.v; apluggy enters the `run` contexts in pluggy order and exits them in reverse (modelled as nesting)',
+    'translate/machine_wiring.py (ast, fail-closed): nextline/fsm/machine.py + callback.py (+ the names of config.py) -> Gen/MachineWiring.v, '
+    'every method of StateMachine and Callback as a statement term of Life/MachineSyntax.v, both __init__ bodies; trusted: the Python-ast -> AST '
+    'mapping, and in Life/MachineTie.v the callback resolution and order of the transitions library 0.9.3 for one trigger (`script`: '
+    'before, exit callbacks of the source, set_state, enter callbacks of dest, after_state_change also for the internal transition; '
+    'on_enter_<state>/on_exit_<state> discovered iff the model has the method; MachineError iff no row; file/line references in the header), '
+    'the event data of each trigger (reset(reset_options=...), the others without arguments), the meaning of each hook / wait over the model state '
+    '(the model\'s own helpers log_hook / change_state_hook / ...; names of the suspension points gate_pc) and the Imp-level epilogue after a trigger '
+    '(copied from the model; Life/ImpTie.v); not modelled: a hook or wait that raises or is cancelled inside a trigger, the catching of the awaiting '
+    'task\'s own cancellation by `except BaseException` in Callback.on_exit_finished (the clause itself is required syntactically)',
 ]
 ASSUMPTIONS = _life.ASSUMPTIONS + [
     'FailStart: an exception is one kind; every await of the run session may raise, plain statements may not; the oracle positions '
